@@ -224,6 +224,39 @@ func propC12(c *ctx) error {
 			}
 		}
 	}
+	// ---------- slice / index operands of the wrong kind are failures, whatever the other bounds are
+	{
+		data := vMap(kv{"xs", vStrSlice("a", "b", "c")}, kv{"f", vF64(1)}, kv{"s", vStr("1")}, kv{"b", vBool(true)}, kv{"n", vNil()}, kv{"i", vInt(1)})
+		for _, src := range []string{"xs[f:]", "xs[f:2]", "xs[s:]", "xs['1':]", "xs[b:]", "xs[n:2]", "xs[:f]", "xs[1:f]", "xs[:s]", "xs[0:1:f]", "xs[0:f:2]", "xs[f:2:3]",
+			"xs[1.0:]", "xs[f]", "xs[1.5]", "xs[b]", "xs[1:nope]", "xs[nope:]"} {
+			out := implEval(src, []any{data.g}, nil)
+			res.eval("bound|"+src, true, J{"src": src})
+			res.S3Checked++
+			res.count("wrong_kind_bounds")
+			if out.R == "ok" {
+				res.violate(J{"src": src, "env": data.j}, "error", out.V, "a slice / index operand of the wrong kind (or a failing one) yields a value instead of failing the expression")
+			}
+			if c.d != nil {
+				m, err := c.d.ask(J{"op": "eval", "src": src, "data": data.j})
+				if err != nil {
+					return err
+				}
+				if sget(m, "r") != "unsupported" {
+					res.S2Compared++
+					mr := sget(m, "r")
+					if (mr == "ok") != (out.R == "ok") {
+						res.disagree(J{"src": src}, J{"r": out.R, "v": out.V}, m, "eval")
+					}
+				}
+			}
+		}
+		// controls: integer bounds of any kind are fine
+		for _, src := range []string{"xs[i:]", "xs[i:2]", "xs[:i]", "xs[0:i:2]", "xs[i]"} {
+			if out := implEval(src, []any{data.g}, nil); out.R != "ok" {
+				res.SelfTest = append(res.SelfTest, "C12 control slice failed: "+src+" "+out.Err)
+			}
+		}
+	}
 	// ---------- template level: a slot that fails vs the same slot succeeding; writer failing at every index
 	tn := c.n(250, 8000)
 	slots := []string{"text", "raw", "title", "if", "with", "range", "insert", "elif"}
